@@ -9,7 +9,7 @@ import sys
 import time
 
 VERIF = os.path.dirname(os.path.dirname(os.path.abspath(__file__)))
-REPO = "/repo"
+REPO = os.environ.get("VERIF_REPO", "/repo")   # a background sweep runs on its own copy of the repository
 
 
 def sh(cmd, cwd=None, timeout=3600):
